@@ -134,7 +134,7 @@ theorem copyFileUp_inv (st : Node) (pp : Path) (n : Name) :
   · refine Triple.bind (parentUpperReal_inv pp) fun pr => Triple.pure_pre fun hpr => ?_
     refine Triple.bind freshId_inv fun id => ?_
     refine Triple.bind (mkNode_inv pr _ n _ hpr.1) fun ri => Triple.pure_pre fun hri => ?_
-    refine Triple.bind (layerCall_inv ri _ _ hri.1 hri.2) fun _ => ?_
+    refine Triple.bind (layerCall_inv ri _ _ hri.1 hri.2 (by keeproot)) fun _ => ?_
     exact addUpperInode_inv _ ri true hri.1 hri.2
   · refine Triple.bind (parentUpperReal_inv pp) fun pr => Triple.pure_pre fun hpr => ?_
     refine Triple.bind freshId_inv fun id => ?_
@@ -191,7 +191,7 @@ theorem checkOld_inv (old : Option MNode) : Triple INV (checkOld old) (fun _ => 
 
 theorem tryDeleteWhiteout_inv (pr : Real) (n : Name) (hr : I.φ pr) (hu : pr.inUpper = true) :
     Triple INV (tryDeleteWhiteout pr n) (fun _ => INV) INV :=
-  Triple.ignoreErr' (layerCall_inv pr _ _ hr hu)
+  Triple.ignoreErr' (layerCall_inv pr _ _ hr hu (by keeproot))
 
 theorem installChild_inv (pp : Path) (n : Name) (b : Bool) (old : Option MNode) (pr ri : Real)
     (hpr : I.φ pr ∧ pr.inUpper = true) (hri : I.φ ri ∧ ri.inUpper = true) :
@@ -199,7 +199,7 @@ theorem installChild_inv (pp : Path) (n : Name) (b : Bool) (old : Option MNode) 
   unfold installChild
   split
   · refine Triple.ite' (fun _ => ?_) (fun _ => (addUpperInode_inv _ ri true hri.1 hri.2).post fun _ _ h => h.2)
-    refine Triple.bind (layerCall_inv pr _ _ hpr.1 hpr.2) fun _ => ?_
+    refine Triple.bind (layerCall_inv pr _ _ hpr.1 hpr.2 (by keeproot)) fun _ => ?_
     exact insertChild_inv pp n _ (newNode_ok hri.1)
   · exact insertChild_inv pp n _ (newNode_ok hri.1)
 
@@ -265,9 +265,9 @@ theorem emptyOne_inv (p : Path) (r : Real) (n : Name) (hr : I.φ r ∧ r.inUpper
   · rename_i c _
     refine Triple.ite' (fun _ => ?_) (fun _ => Triple.pure' fun _ h => h)
     refine Triple.bind (Q := fun _ => INV) ?_ fun _ => removeChild_inv p n
-    refine Triple.ite' (fun _ => layerCall_inv r _ _ hr.1 hr.2) fun _ => ?_
+    refine Triple.ite' (fun _ => layerCall_inv r _ _ hr.1 hr.2 (by keeproot)) fun _ => ?_
     refine Triple.bind (nodeStat_inv c) fun cs => ?_
-    exact Triple.ite' (fun _ => layerCall_inv r _ _ hr.1 hr.2) (fun _ => layerCall_inv r _ _ hr.1 hr.2)
+    exact Triple.ite' (fun _ => layerCall_inv r _ _ hr.1 hr.2 (by keeproot)) (fun _ => layerCall_inv r _ _ hr.1 hr.2 (by keeproot))
 
 theorem emptyNodeDirectory_inv (p : Path) : Triple INV (emptyNodeDirectory p) (fun _ => INV) INV := by
   unfold emptyNodeDirectory
@@ -297,7 +297,7 @@ theorem rmFinish_inv (pp : Path) (n : Name) (dir : Bool) (node pm : MNode) (nw :
   · rename_i pr hpr
     have hr := upperReal_ok hpm hpr
     refine Triple.bind (Q := fun _ => INV) (Triple.whenM' (fun _ => ?_) fun _ _ h => h) fun _ => ?_
-    · exact Triple.ite' (fun _ => layerCall_inv pr _ _ hr.1 hr.2) (fun _ => layerCall_inv pr _ _ hr.1 hr.2)
+    · exact Triple.ite' (fun _ => layerCall_inv pr _ _ hr.1 hr.2 (by keeproot)) (fun _ => layerCall_inv pr _ _ hr.1 hr.2 (by keeproot))
     refine Triple.bind (removeChild_inv pp n) fun _ => ?_
     refine Triple.ite' (fun _ => ?_) (fun _ => Triple.pure' fun _ h => h)
     refine Triple.bind (createWhiteout_inv pr n hr.1) fun ri => Triple.pure_pre fun hri => ?_
@@ -362,7 +362,7 @@ theorem doOpen_inv (p : Path) (write trunc : Bool) :
     simp only [whenM, if_true]
     refine Triple.bind (copyNodeUp_inv p) fun _ => ?_
     refine Triple.bind (firstReal_up p) fun r => Triple.pure_pre fun hr => ?_
-    refine Triple.bind (layerCall_inv r _ _ hr.1 hr.2) fun _ => ?_
+    refine Triple.bind (layerCall_inv r _ _ hr.1 hr.2 (by keeproot)) fun _ => ?_
     exact Triple.pure' fun _ h => ⟨⟨hr.1, fun _ => hr.2⟩, h⟩
 
 theorem doWrite_inv (p : Path) (trunc append : Bool) (off : Nat) (data : List Nat) :
@@ -370,7 +370,7 @@ theorem doWrite_inv (p : Path) (trunc append : Bool) (off : Nat) (data : List Na
   unfold doWrite
   refine Triple.bind (doOpen_inv p true trunc) fun r => Triple.pure_pre fun hr => ?_
   refine Triple.bind (Q := fun _ => INV) (Triple.getSt' fun _ h => h) fun s0 => ?_
-  exact layerCall_inv r _ _ hr.1 (hr.2 rfl)
+  exact layerCall_inv r _ _ hr.1 (hr.2 rfl) (by keeproot)
 
 /-- after `if !m.inUpper { copy_node_up }` the node is in the upper layer -/
 theorem ensureUp (p : Path) (m : MNode) :
@@ -380,7 +380,7 @@ theorem ensureUp (p : Path) (m : MNode) :
   refine ⟨⟨m, hs.1, ?_⟩, hs.2⟩
   simpa using hc
 
-theorem doSetattr_inv (p : Path) (f : Path → Layer → Except Nat Layer) :
+theorem doSetattr_inv (p : Path) (f : Path → Layer → Except Nat Layer) (hf : ∀ rp, KeepRoot (f rp)) :
     Triple INV (doSetattr p f) (fun _ => INV) INV := by
   unfold doSetattr
   refine Triple.bind hasUpper_inv fun up => ?_
@@ -389,16 +389,17 @@ theorem doSetattr_inv (p : Path) (f : Path → Layer → Except Nat Layer) :
   refine Triple.bind (lookupSelf_inv p) fun m => ?_
   refine Triple.bind ((ensureUp p m).pre fun _ h => ⟨h.1.2, h.2⟩) fun _ => ?_
   refine Triple.bind (firstReal_up p) fun r => Triple.pure_pre fun hr => ?_
-  exact layerCall_inv r _ _ hr.1 hr.2
+  exact layerCall_inv r _ _ hr.1 hr.2 (hf _)
 
-theorem doXattr_inv (p : Path) (meth : Method) (f : Path → Layer → Except Nat Layer) :
+theorem doXattr_inv (p : Path) (meth : Method) (f : Path → Layer → Except Nat Layer)
+    (hf : ∀ rp, KeepRoot (f rp)) :
     Triple INV (doXattr p meth f) (fun _ => INV) INV := by
   unfold doXattr
   refine Triple.bind (lookupSelf_inv p) fun m => ?_
   refine Triple.ite' (fun _ => Triple.fail' fun _ h => h.2) fun _ => ?_
   refine Triple.bind ((ensureUp p m).pre fun _ h => ⟨h.1.2, h.2⟩) fun _ => ?_
   refine Triple.bind (firstReal_up p) fun r => Triple.pure_pre fun hr => ?_
-  exact layerCall_inv r _ _ hr.1 hr.2
+  exact layerCall_inv r _ _ hr.1 hr.2 (hf _)
 
 /-! ### the client side -/
 
@@ -600,28 +601,28 @@ theorem runOp_inv (op : Op) : Triple INV (runOp op) (fun _ => INV) INV := by
     refine Triple.bind (resolve_inv p) fun r => ?_
     obtain ⟨path, st⟩ := r
     refine Triple.ite' (fun _ => Triple.fail' fun _ h => h) fun _ => ?_
-    refine Triple.bind (doSetattr_inv path _) fun _ => ?_
+    refine Triple.bind (doSetattr_inv path _ (fun _ => by keeproot)) fun _ => ?_
     exact Triple.pure' fun _ h => h
   | truncate p n =>
     unfold runOp
     refine Triple.bind (resolve_inv p) fun r => ?_
     obtain ⟨path, st⟩ := r
     refine kindGuard_inv _ _ _ _ _ ?_
-    refine Triple.bind (doSetattr_inv path _) fun _ => ?_
+    refine Triple.bind (doSetattr_inv path _ (fun _ => by keeproot)) fun _ => ?_
     exact Triple.pure' fun _ h => h
   | setx p v =>
     unfold runOp
     refine Triple.bind (resolve_inv p) fun r => ?_
     obtain ⟨path, st⟩ := r
     refine Triple.ite' (fun _ => Triple.fail' fun _ h => h) fun _ => ?_
-    refine Triple.bind (doXattr_inv path _ _) fun _ => ?_
+    refine Triple.bind (doXattr_inv path _ _ (fun _ => by keeproot)) fun _ => ?_
     exact Triple.pure' fun _ h => h
   | rmx p =>
     unfold runOp
     refine Triple.bind (resolve_inv p) fun r => ?_
     obtain ⟨path, st⟩ := r
     refine Triple.ite' (fun _ => Triple.fail' fun _ h => h) fun _ => ?_
-    refine Triple.bind (doXattr_inv path _ _) fun _ => ?_
+    refine Triple.bind (doXattr_inv path _ _ (fun _ => by keeproot)) fun _ => ?_
     exact Triple.pure' fun _ h => h
   | getx p =>
     unfold runOp
@@ -657,7 +658,7 @@ def upperSpec (L0 : List Layer) : InvSpec where
   D d := d.lowers = L0
   child r c h hl hu := by intro hc; rw [hl]; exact h (hu ▸ hc)
   call r _ h hu := h hu
-  disk r L d h hu hd := by
+  disk r L L' d h hu hd _ _ := by
     have : r.layer = 0 := h hu
     rw [this]; simpa [Disk.setLayer] using hd
 
@@ -700,7 +701,7 @@ def noUpperSpec (d0 : Disk) : InvSpec where
   D d := d = d0
   child r c h _ hu := by rw [hu]; exact h
   call r _ h hu := by rw [h] at hu; cases hu
-  disk r L d h hu _ := by rw [h] at hu; cases hu
+  disk r L L' d h hu _ _ _ := by rw [h] at hu; cases hu
 
 theorem mem_indices_pos {d : Disk} (hd : d.upper = none) : ∀ i ∈ d.indices, i ≠ 0 := by
   intro i hi
